@@ -185,6 +185,21 @@ func (fc *FnCtx) mapDelete(m Val, k Val) {
 // range / next (maps and strings): each Next is a havoc
 
 func (fc *FnCtx) doNext(x *ssa.Next) {
+	pos := x.Pos()
+	if !pos.IsValid() {
+		if rng, ok := x.Iter.(*ssa.Range); ok {
+			pos = rng.Pos()
+		}
+	}
+	fc.anchorArgs = nil
+	fc.anchorBefore("next", pos)
+	defer func() {
+		res := fc.vals[x]
+		fc.anchorArgs = nil
+		fc.anchorRes = &res
+		fc.anchorAfter("next", pos)
+		fc.anchorRes = nil
+	}()
 	v := fc.freshValWF("next", x.Type())
 	if rng, ok := x.Iter.(*ssa.Range); ok && !x.IsString {
 		// (ok bool, k K, v V) over a map: ok ==> k is a key of the map and v its current value
